@@ -5,6 +5,7 @@ package main
 import (
 	"encoding/json"
 	"fmt"
+	"regexp"
 	"strings"
 
 	"verif/gen"
@@ -254,7 +255,8 @@ func auditDockerManifest(run counter, out *auditOut, bad func(string, string, ..
 	for _, rt := range rec.RepoTags {
 		slash := strings.LastIndexByte(rt, '/')
 		colon := strings.LastIndexByte(rt, ':')
-		if rt == "" || colon <= slash || colon == len(rt)-1 || colon == 0 {
+		if rt == "" || colon <= slash || colon == len(rt)-1 || colon == 0 || strings.ContainsRune(rt, '@') || !repoTagTagRE.MatchString(rt[colon+1:]) {
+			// (a reference that carries a digest is not a tag: a load leaves such an image unnamed)
 			bad("docker-manifest", "manifest.json RepoTags entry %q is not of the form name:tag", rt)
 			continue
 		}
@@ -269,6 +271,8 @@ func auditDockerManifest(run counter, out *auditOut, bad func(string, string, ..
 		}
 	}
 }
+
+var repoTagTagRE = regexp.MustCompile(`^[A-Za-z0-9_][A-Za-z0-9._-]{0,127}$`)
 
 type counter interface {
 	Count(name string, n int)
